@@ -81,3 +81,15 @@ func VerifWatchCache(b Backend) *Ring { return b.(*backend).watchCache }
 func VerifRetryMinRevision(b Backend) uint64 {
 	return b.(*backend).asyncFifoRetry.MinRevision()
 }
+
+// VerifSubs returns the subscriber channels currently registered in the hub.
+func VerifSubs(b Backend) []chan []*proto.Event {
+	h := b.(*backend).watcherHub
+	h.RLock()
+	defer h.RUnlock()
+	out := make([]chan []*proto.Event, 0, len(h.subs))
+	for c := range h.subs {
+		out = append(out, c)
+	}
+	return out
+}
